@@ -45,6 +45,7 @@ type harnessSpec struct {
 	Prefer    string
 	Reach     []string
 	Stubs     [][2]string
+	NoStubs   bool
 	Noops     []string
 	Replay    bool
 	Assume    []string
@@ -196,6 +197,8 @@ func loadSpecs(prop string) ([]*harnessSpec, error) {
 						s.Prefer = v
 					case "reach":
 						s.Reach = strings.Split(v, ",")
+					case "stubs":
+						s.NoStubs = v == "off"
 					case "replay":
 						s.Replay = v != "off"
 					case "desc":
@@ -536,7 +539,7 @@ func cmdCheck(args []string) int {
 			eng.NoopFuncs[n] = true
 		}
 		h := &symgo.Harness{Name: s.Name, Fn: fn, Bounds: s.Bounds, MaxPaths: s.MaxPaths, MaxSteps: s.MaxSteps, MaxFanout: s.MaxFanout,
-			MaxSwitches: s.MaxSwitch, PreferInt: s.Prefer == "int", PreferCVC5: s.Prefer == "cvc5", Reach: s.Reach, Tier: *tier}
+			MaxSwitches: s.MaxSwitch, NoStubs: s.NoStubs, PreferInt: s.Prefer == "int", PreferCVC5: s.Prefer == "cvc5", Reach: s.Reach, Tier: *tier}
 		if *oneScript != "" {
 			res := eng.RunScript(h, *oneScript)
 			fmt.Printf("status=%s msg=%s\nscript=%v\nreached=%v\nobs=%v\n", res.Status, res.Msg, res.Script, res.Reached, res.Observation)
